@@ -135,6 +135,32 @@ C13Eval(o, dec) ==
                                                    /\ tail = TailPadBitsWhenAligned(v, cap, p)},
       facts |-> [endp |-> p, cap |-> cap, q8 |-> q % 8, dist |-> cap - p]]
 
+(* ---------------- C04 / C05 on one symbol (any content, also multi-part) ---------------- *)
+\* o.exp.req: [version (99 = none), error ("-" = none), micro ("none" | "yes" | "no"), eci, boost]
+ReqLevelFor(v, req) == IF v = -3 THEN "-" ELSE IF req.error = "-" THEN "L" ELSE req.error
+ReqAdmissible(v, req, segs) ==
+  /\ (IsMicro(v) => req.micro # "no" /\ ~req.eci /\ \A i \in 1..Len(segs) : segs[i].kind = "data" /\ ModeOK(v, segs[i].mode))
+  /\ (~IsMicro(v) => req.micro # "yes")
+  /\ (v = -3 => req.error = "-")
+  /\ HasLevel(v, ReqLevelFor(v, req))
+C04Fails(o, dec) ==
+  LET d == dec.d v == dec.v req == o.exp.req IN
+  {c \in {"never_truncated", "smallest_for_segmentation", "requested_version"} :
+     CASE c = "never_truncated" -> ~(d.parse = "end" /\ Len(d.payload) = Len(ExpectedPayload(o.exp.parts)))
+       [] c = "smallest_for_segmentation" ->
+            req.version = 99 /\ d.parse = "end" /\
+            \E w \in -3..40 : w < v /\ ReqAdmissible(w, req, d.segs) /\ CapT(w, ReqLevelFor(w, req)) >= StreamLen(w, d.segs)
+       [] c = "requested_version" -> req.version # 99 /\ v # req.version}
+C05Fails(o, dec) ==
+  LET v == dec.v e == dec.fmt.level req == o.exp.req need == StreamLen(v, dec.d.segs) IN
+  {c \in {"level_not_below_request", "no_H_in_micro", "m1_has_no_level", "noboost_exact", "boost_max"} :
+     CASE c = "level_not_below_request" -> req.error # "-" /\ (e = "-" \/ LevelIdx(e) < LevelIdx(req.error))
+       [] c = "no_H_in_micro" -> IsMicro(v) /\ e = "H"
+       [] c = "m1_has_no_level" -> (v = -3) # (e = "-")
+       [] c = "noboost_exact" -> ~req.boost /\ e # ReqLevelFor(v, req)
+       [] c = "boost_max" -> req.boost /\ Len(o.exp.parts) = 1 /\ dec.d.parse = "end" /\ e # "-" /\
+                             ~(\A x \in {"L", "M", "Q", "H"} : (HasLevel(v, x) /\ LevelIdx(x) > LevelIdx(e)) => CapT(v, x) < need)}
+
 (* ---------------- the verdict of one symbol observation ---------------- *)
 \* o.props: sequence of property ids whose clauses are to be evaluated
 SymVerdict(o) ==
@@ -151,6 +177,8 @@ SymVerdict(o) ==
       fails |-> (IF want("C01") THEN tag("C01", C01Fails(o, dec)) ELSE {})
                 \cup (IF want("C02") THEN tag("C02", C02Fails(o, dec)) ELSE {})
                 \cup (IF want("C03") THEN tag("C03", C03Fails(o, dec)) ELSE {})
+                \cup (IF want("C04") THEN tag("C04", C04Fails(o, dec)) ELSE {})
+                \cup (IF want("C05") THEN tag("C05", C05Fails(o, dec)) ELSE {})
                 \cup tag("C06", c06.fails) \cup tag("C13", c13.fails),
       devs |-> c06.devs \cup c13.devs,
       facts |-> [v |-> dec.v, level |-> dec.fmt.level, mask |-> dec.fmt.mask, parse |-> dec.d.parse,
